@@ -1,0 +1,62 @@
+//go:build verif
+
+// Verification hooks: thin exported wrappers around unexported functions.
+// Compiled only with `-tags verif`; they add no behaviour.
+
+package parser
+
+import "bytes"
+
+// VerifParsedLine is the exported view of ParsedLine.
+type VerifParsedLine struct {
+	Type               int
+	IncludeFileName    string
+	ExcludeFileNames   []string
+	SuffixReplacements [][2]string
+	DefinitionName     string
+	DefinitionValue    string
+	Prefix             string
+	Suffix             string
+	Flags              string
+}
+
+// VerifParseLine exposes parseLine.
+func (p *Parser) VerifParseLine(line string) VerifParsedLine {
+	pl := p.parseLine(line)
+	out := VerifParsedLine{
+		Type:             int(pl.parsedType),
+		IncludeFileName:  pl.includeFileName,
+		ExcludeFileNames: pl.excludeFileNames,
+		Prefix:           pl.prefix,
+		Suffix:           pl.suffix,
+		Flags:            pl.flags,
+	}
+	for _, pair := range pl.suffixReplacements {
+		out.SuffixReplacements = append(out.SuffixReplacements, [2]string{pair.match, pair.replacement})
+	}
+	for name, value := range pl.definitions {
+		out.DefinitionName = name
+		out.DefinitionValue = value
+	}
+	return out
+}
+
+// VerifVariables returns the parser's definitions.
+func (p *Parser) VerifVariables() map[string]string {
+	return p.variables
+}
+
+// VerifExpandDefinitions exposes expandDefinitions (the map is modified in place, as in Parse).
+func VerifExpandDefinitions(src []byte, variables map[string]string) []byte {
+	return expandDefinitions(bytes.NewBuffer(src), variables).Bytes()
+}
+
+// VerifReplaceSuffixes exposes buildPairMap followed by replaceSuffixes.
+func VerifReplaceSuffixes(input []byte, pairs string) (string, error) {
+	return replaceSuffixes(bytes.NewBuffer(input), buildPairMap(pairs))
+}
+
+// VerifSplitArgs exposes splitArgs.
+func VerifSplitArgs(input string) []string {
+	return splitArgs(input)
+}
